@@ -5,6 +5,7 @@ CONSTANTS
   Cap = 1000
   Retention = 1
   MinDelay = 10
+  Op0 = "op0"
 INIT Init
 NEXT Next
 CHECK_DEADLOCK FALSE
